@@ -707,7 +707,18 @@ def _subscribe_clauses():
         return count(p.events, "execution-") <= count(p.events, "execution+") <= 1 and \
             (p.outcome != "return" or "cb:then" not in p.events or count(p.events, "execution-") == 1)
 
+    def started_stage_is_ended(p):
+        # whatever happens once on_execution_start has fired - the operation is refused, the subscription resolver fails, the stream is set up -
+        # on_execution_end fires as well (an exception that is not even an Exception - the abstract `*` on the not-else branch - is left out)
+        if "execution+" not in p.events:
+            return None
+        if p.outcome == "raise" and any(t.endswith("map_value:not-else") for t in p.trail):
+            return None
+        return count(p.events, "execution-") == 1
+
     return [
+        ("a-started-execution-stage-is-ended", "once on_execution_start has fired, on_execution_end fires too: also when the operation is refused or the subscription "
+                                               "resolver fails", started_stage_is_ended),
         ("refusals-before-the-source-stream-exists", "RuntimeError refusals are raised before the source stream is created or mapped", refusal_before_stream),
         ("non-subscription-operation-refused", "an operation that is not a subscription is refused without creating a stream", non_subscription_refused),
         ("runtime-without-streams-refused", "a runtime without stream support is refused without creating a stream", runtime_refused),
